@@ -261,7 +261,7 @@ def main():
             "regenerated_sources": {k: v for k, v in meta["sources"].items() if k in spec.get("sources", [])},
             "translation_notes": meta["notes"],
             "helpers_changed": meta.get("helpers_changed"),
-            "notes": notes,
+            "notes": notes + ([("props file: " + str(pinfo.get("stderr")))[:600]] if not pinfo.get("ok") else []),
             "known_findings_reobserved": [k["key"] for k in known_seen],
         },
         "assumptions": spec.get("assumptions", []),
